@@ -32,8 +32,10 @@ MUTANTS = [
       "    try:\n        curr_text = curr_file.open('r', encoding='utf-8').read()\n    except UnicodeDecodeError as decode_error:\n        raise FlipJumpParsingException(\n            f\"file {curr_file} is not a valid utf-8 text file: {decode_error}.\"\n        ) from decode_error\n",
       "    curr_text = curr_file.open('r', encoding='utf-8').read()\n", 'C14.ESCAPE'),
     M('C14', 'synthetic label prefix user-spellable again', PRE, "wflip_start_label = ':wflip_area_start:'", "wflip_start_label = '_.wflip_area_start_'", 'C14.ESCAPE'),
-    M('C14', 'funnel swallows library exceptions into the generic one', ASM, "    except FlipJumpException as fj_exception:\n        raise fj_exception\n    except Exception as unknown_exception:\n        raise FlipJumpAssemblerException(",
-      "    except Exception as unknown_exception:\n        raise FlipJumpAssemblerException(", 'C14.FUNNEL'),
+    M('C14', 'funnel swallows library exceptions into the generic one', ASM, "    except FlipJumpException as fj_exception:\n        raise fj_exception\n    except RecursionError as recursion_error:",
+      "    except RecursionError as recursion_error:", 'C14.FUNNEL'),
+    M('C14', 'funnel no longer converts RecursionError (F07 reverted)', ASM, "    except RecursionError as recursion_error:\n        raise FlipJumpAssemblerException(", "    except MemoryError as recursion_error:\n        raise FlipJumpAssemblerException(", 'C14.RECURSION', count=1),
+    M('C14', 'RecursionError handler re-raises a builtin', ASM, "    except RecursionError as recursion_error:\n        raise FlipJumpAssemblerException(", "    except RecursionError as recursion_error:\n        raise RuntimeError(", 'C14.FUNNEL'),
     M('C14', 'EQ membership test spelled via early return', OPS,
       "        if self.name in labels_dict:\n            new_name = labels_dict[self.name].value\n            if isinstance(new_name, str):\n                return new_name\n            raise FlipJumpExprException(\n                f'Bad label swap (from {self.name} to {labels_dict[self.name]}) in {self.code_position}.'\n            )\n        return self.name",
       "        if self.name not in labels_dict:\n            return self.name\n        new_name = labels_dict[self.name].value\n        if isinstance(new_name, str):\n            return new_name\n        raise FlipJumpExprException(\n            f'Bad label swap (from {self.name} to {labels_dict[self.name]}) in {self.code_position}.'\n        )", None),
